@@ -37,7 +37,9 @@ def _side(ctx, rule, name):
     if not ctx.require(rule, fi, "container dispatch (if-chain on `origin`) in %s" % name, 1 if chain is not None else 0, 1):
         return fi, None, None
     subject = js.subject_of(chain)
-    if subject is None:
+    sink_in_chain = any((isinstance(x, ast.Call) and norm(x.func) == "setattr") or (isinstance(x, ast.Assign) and isinstance(x.targets[0], ast.Subscript) and norm(x.targets[0]) == "obj[field]")
+                        for x in ast.walk(chain))
+    if subject is None or not sink_in_chain:
         # not one if-chain with its guards in the tests: interpret the whole dispatch region (flags, several chains, one store)
         region = js.find_region(fi)
         if region is not None:
@@ -197,17 +199,29 @@ def _decision_paths(ctx, fi):
     cc = CondCtx(ctx.folder, fi.module, fi.cls)
     out = set()
     for (conds, env, ret) in paths:
-        alts = [(list(conds), ret)]
-        # (f or g)(args): the callee is f when f is truthy, else g
-        try:
-            r = ast.parse(ret, mode="eval").body
-        except SyntaxError:
-            r = None
-        if isinstance(r, ast.Call) and isinstance(r.func, ast.BoolOp) and isinstance(r.func.op, ast.Or) and len(r.func.values) == 2:
-            f, g = r.func.values
-            argtxt = ", ".join([ast.unparse(x) for x in r.args] + ["%s=%s" % (k.arg, ast.unparse(k.value)) for k in r.keywords])
-            alts = [(list(conds) + [(ast.unparse(f), True)], "%s(%s)" % (ast.unparse(f), argtxt)),
-                    (list(conds) + [(ast.unparse(f), False)], "%s(%s)" % (ast.unparse(g), argtxt))]
+        alts = []
+        work = [(list(conds), ret)]
+        while work and len(alts) + len(work) < 64:
+            cs0, rt0 = work.pop()
+            try:
+                r = ast.parse(rt0, mode="eval").body
+            except SyntaxError:
+                r = None
+            # (f or g)(args): the callee is f when f is truthy, else g
+            if isinstance(r, ast.Call) and isinstance(r.func, ast.BoolOp) and isinstance(r.func.op, ast.Or) and len(r.func.values) == 2:
+                f, g = r.func.values
+                argtxt = ", ".join([ast.unparse(x) for x in r.args] + ["%s=%s" % (k.arg, ast.unparse(k.value)) for k in r.keywords])
+                work += [(cs0 + [(ast.unparse(f), True)], "%s(%s)" % (ast.unparse(f), argtxt)), (cs0 + [(ast.unparse(f), False)], "%s(%s)" % (ast.unparse(g), argtxt))]
+            # a if c else b: one path per arm
+            elif isinstance(r, ast.IfExp):
+                work += [(cs0 + [(ast.unparse(r.test), True)], ast.unparse(r.body)), (cs0 + [(ast.unparse(r.test), False)], ast.unparse(r.orelse))]
+            # (a if c else b)(args)
+            elif isinstance(r, ast.Call) and isinstance(r.func, ast.IfExp):
+                argtxt = ", ".join([ast.unparse(x) for x in r.args] + ["%s=%s" % (k.arg, ast.unparse(k.value)) for k in r.keywords])
+                work += [(cs0 + [(ast.unparse(r.func.test), True)], "%s(%s)" % (ast.unparse(r.func.body), argtxt)),
+                         (cs0 + [(ast.unparse(r.func.test), False)], "%s(%s)" % (ast.unparse(r.func.orelse), argtxt))]
+            else:
+                alts.append((cs0, rt0))
         for (cs, rt) in alts:
             lits = []
             for (t, p) in cs:
